@@ -48,8 +48,19 @@ class ScriptLayer(layer.Layer):
         self.log = []
         self.waiting = None
         self.active = False
+        self._handle_event = self.state0
 
-    def _handle_event(self, event):
+    # the layer switches protocol state the way TCP/UDP/DNS/WebSocket layers do: by reassigning self._handle_event
+    def state0(self, event):
+        yield from self._process(event, 0)
+
+    def state1(self, event):
+        yield from self._process(event, 1)
+
+    def _handle_event(self, event):  # replaced per instance in __init__
+        yield from self._process(event, 0)
+
+    def _process(self, event, mode):
         w = self.world
         if self.waiting is not None:
             w["violations"].append(("reentry-while-waiting", self.name))
@@ -81,10 +92,12 @@ class ScriptLayer(layer.Layer):
                 self.log.append(("end", "C%s" % w["tag"][id(event.command)]))
                 return
             i = event.data[0]
-            self.log.append(("start", i))
+            self.log.append(("start", i, mode))
             for step in self.script.get(str(i), []):
                 kind = step[0]
-                if kind == "send":
+                if kind == "switch":
+                    self._handle_event = self.state1 if self._handle_event == self.state0 else self.state0
+                elif kind == "send":
                     yield commands.SendData(self.context.client, ("%s:%s" % (self.name, step[1])).encode())
                 elif kind == "block":
                     tag = "%s:%s" % (self.name, step[1])
@@ -195,6 +208,7 @@ class MLayer:
         self.name, self.script, self.children = name, script, list(children)
         self.queue = collections.deque()
         self.waiting = None
+        self.mode = 0
         self.frames = []  # stack of [event label, remaining steps]
         self.log = []
         self.waited_with_queue = False
@@ -245,7 +259,7 @@ class Model:
             steps = [("child-obj", c, ev) for c in L.children if owner is c or owner in c.descendants()]
             L.cur = ["C%s" % ev[1], steps, ev]
         else:
-            L.log.append(("start", ev[1]))
+            L.log.append(("start", ev[1], L.mode))
             L.cur = [ev[1], [tuple(s) for s in L.script.get(str(ev[1]), [])], ev]
 
     def advance(self, L):
@@ -253,7 +267,9 @@ class Model:
             label, steps, ev = L.cur
             while steps:
                 s = steps.pop(0)
-                if s[0] == "send":
+                if s[0] == "switch":
+                    L.mode = 1 - L.mode
+                elif s[0] == "send":
                     self.out.append("%s:%s" % (L.name, s[1]))
                 elif s[0] == "block":
                     tag = "%s:%s" % (L.name, s[1])
@@ -315,6 +331,8 @@ def gen_script(rnd, nev, has_children, p_block):
             r = rnd.random()
             if r < p_block:
                 steps.append(["block", "%d.%d" % (i, j)])
+            elif r < p_block + 0.15:
+                steps.append(["switch", "%d.%d" % (i, j)])
             else:
                 steps.append(["send", "%d.%d" % (i, j)])
         if has_children and rnd.random() < 0.85:
